@@ -74,12 +74,7 @@ func (c *VCtx) binop(fr *Frame, st *State, x *ssa.BinOp) Val {
 			r = Ite(Ge(tb, IntLit(int64(bits))), IntLit(0), r)
 		case token.SHR:
 			c.safety(fr, st, "negshift", Ge(tb, IntLit(0)), x.Pos())
-			bits, signed, _ := intInfo(ty)
-			big := IntLit(0)
-			if signed {
-				big = Ite(Lt(ta, IntLit(0)), IntLit(-1), IntLit(0))
-			}
-			r = Ite(Ge(tb, IntLit(int64(bits))), big, T(SInt, app("div", ta, T(SInt, app("pow2", tb)))))
+			r = T(SInt, app("shr", ta, tb))
 		case token.AND:
 			// x & (2^k-1) for constant masks
 			if k, ok := x.Y.(*ssa.Const); ok {
